@@ -53,7 +53,7 @@ def peer_datagram(p, who, kind):
     if peer.state != S.ESTABLISHED:
         return None
     if kind == 'dpd':
-        world.ENV.now = peer.start_dpd_at + 1
+        world.ENV.now = peer.start_dpd_at + 3600
         d = PE.call(peer.check_dead_peer_detection_timer)
     elif kind == 'del_child':
         d = PE.call(peer.process_expire, peer.child_sas[0].inbound_spi, True)
@@ -63,10 +63,10 @@ def peer_datagram(p, who, kind):
         tsi, tsr = p.acquire_tss() if who == 'B' else p.acquire_tss_rev()
         d = PE.call(peer.process_acquire, tsi, tsr, 1 if who == 'B' else 2)
     elif kind == 'rekey_ike':
-        world.ENV.now = peer.rekey_ike_sa_at + 1
+        world.ENV.now = peer.rekey_ike_sa_at + 10
         d = PE.call(peer.check_rekey_ike_sa_timer)
     elif kind == 'del_ike':
-        world.ENV.now = peer.delete_ike_sa_at + 1
+        world.ENV.now = peer.delete_ike_sa_at + 3600
         d = PE.call(peer.check_rekey_ike_sa_timer)
     else:
         raise ValueError(kind)
